@@ -119,6 +119,10 @@ pub trait GenType: Sync + Send {
     fn de_json(&self, _bytes: &[u8]) -> Option<Result<Box<dyn Gen>, String>> {
         None
     }
+    /// `Default::default()` if - and only if - the generator type implements `Default`
+    fn default_ctor(&self) -> Option<Box<dyn Gen>> {
+        None
+    }
     /// two snapshots read one after the other from one byte stream
     fn de_two(&self, _bytes: &[u8]) -> Option<Result<(Box<dyn Gen>, Box<dyn Gen>), String>> {
         None
@@ -172,6 +176,8 @@ pub trait Registry: Sync + Send {
     fn isaac_array_probe(&self) -> (u64, Option<String>);
     /// number of `==` evaluations so far in which `!=` was not its negation
     fn eq_ne_inconsistencies(&self) -> u64;
+    /// number of `==` / `!=` evaluations so far that panicked inside the crate
+    fn eq_panics(&self) -> u64;
     /// (format calls made, first panic) of Debug-formatting the public seed wrapper type with many flag combinations
     fn seed_type_format_probe(&self) -> (u64, Option<String>);
     /// static inventory of possible hidden-state constructs per crate (informational)
